@@ -27,6 +27,7 @@ let observe (h : ov_hist) : string =
       let al = List.sort compare (List.map (fun (k, l) -> (int_of_nat k, idx_of_lit l)) d) in
       List.iter (fun (k, x) -> Buffer.add_string b (" " ^ string_of_int k ^ ":" ^ string_of_int x)) al)
     o.doms;
+  Buffer.add_string b " vs=ok";   (* the harness judges value() against the literal values; the model's value() is that set by definition *)
   let ex = List.sort compare (List.map (fun ((l, r), c) ->
       "=e" ^ string_of_int (int_of_nat l) ^ "e" ^ string_of_int (int_of_nat r) ^ ":" ^ string_of_int (idx_of_lit c)) o.oexprs) in
   Buffer.add_string b (" oex=" ^ String.concat "," ex);
@@ -34,6 +35,7 @@ let observe (h : ov_hist) : string =
 
 let () =
   let h = ref { cur = ov_init; saved = [] } in
+  let eqres = ref [] in   (* literals returned by the new_eq requests of this history, most recent first *)
   let dead = ref false in   (* after a conflict / failed assertion the implementation's state is not modelled *)
   try
     while true do
@@ -41,7 +43,7 @@ let () =
       match List.filter (fun t -> t <> "") (String.split_on_char ' ' line) with
       | [] -> print_endline ""
       | opname :: args ->
-        if opname = "R" then (h := { cur = ov_init; saved = [] }; dead := false);
+        if opname = "R" then (h := { cur = ov_init; saved = [] }; dead := false; eqres := []);
         if !dead then print_endline "r=?dead"
         else begin
           let o = !h.cur in
@@ -49,7 +51,8 @@ let () =
             let neg = t.[0] = '~' in
             let u = if neg then String.sub t 1 (String.length t - 1) else t in
             let x =
-              if u.[0] = '@' then
+              if u.[0] = '$' then List.nth (List.rev !eqres) (int_of_string (String.sub u 1 (String.length u - 1)))
+              else if u.[0] = '@' then
                 (match String.split_on_char '.' (String.sub u 1 (String.length u - 1)) with
                  | [v; k] -> idx_of_lit (x_ov_allows o (nat_of_int (int_of_string v)) (nat_of_int (int_of_string k)))
                  | _ -> failwith "bad token")
@@ -70,7 +73,7 @@ let () =
               set_cur o'; string_of_int (int_of_nat id)
             | "Q", [l; r] ->
               let ((o', x), ok) = x_ov_new_eq o (nat_of_int (int_of_string l)) (nat_of_int (int_of_string r)) in
-              set_cur o'; if not ok then flag := " ASSERT"; string_of_int (idx_of_lit x)
+              set_cur o'; if not ok then flag := " ASSERT"; eqres := idx_of_lit x :: !eqres; string_of_int (idx_of_lit x)
             | "C", _ ->
               let (s', b) = x_new_clause o.sat (List.map tok args) in
               set_cur { sat = s'; doms = o.doms; oexprs = o.oexprs }; if b then "1" else "0"
